@@ -764,6 +764,7 @@ package cache
 //@ func (*InvalidationIndex).cutKeys
 //@   props C15
 //@   requires labeledKeys != nil
+//@   ensures [C15.cut.nonnil] result != nil
 //@   ensures [C15.cut.result] forall l string :: inLabels(labels, l) ==> has(result, l) && result[l] == old(labeledKeys[l])
 //@   ensures [C15.cut.only] forall l string :: has(result, l) ==> inLabels(labels, l)
 //@   ensures [C15.cut.removed] forall l string :: has(labeledKeys, l) == (old(has(labeledKeys, l)) && !inLabels(labels, l))
@@ -787,7 +788,38 @@ package cache
 //@   ensures [C15.count] result0 == delok() - old(delok())
 //@   ensures [C15.err] result1 != nil ==> !errIs(result1, ErrNotFound) && calls("Deleter.Delete") >= 1
 //@       && result1 == res("Deleter.Delete", calls("Deleter.Delete"), 0)
-//@   loop 1 invariant [C15.inv.l1] cnt == delok() - old(delok()) && cutKeys != nil && deleted != nil
-//@   loop 2 invariant [C15.inv.l2] cnt == delok() - old(delok()) && cutKeys != nil && deleted != nil
-//@   loop 3 invariant [C15.inv.l3] cnt == delok() - old(delok()) && cutKeys != nil && deleted != nil
+//@   loop 1 invariant [C15.inv.l1] cnt == delok() - old(delok()) && cnt >= 0 && cutKeys != nil && deleted != nil
+//@   loop 2 invariant [C15.inv.l2] cnt == delok() - old(delok()) && cnt >= 0 && cutKeys != nil && deleted != nil
+//@   loop 3 invariant [C15.inv.l3] cnt == delok() - old(delok()) && cnt >= 0 && cutKeys != nil && deleted != nil
 //@   replay invalidate
+
+// Well-formedness of the label index: inner label maps and registered deleters are non-nil.
+//@ def indexOK(i) := i.labeledKeysByName != nil && i.deleters != nil
+//@     && (forall n string :: has(i.labeledKeysByName, n) ==> i.labeledKeysByName[n] != nil)
+//@     && (forall n string :: forall j int :: has(i.deleters, n) && 0 <= j && j < len(i.deleters[n]) ==> i.deleters[n][j] != nil)
+
+//@ func (*InvalidationIndex).AddCache
+//@   props C15 C16
+//@   requires indexOK(i) && deleter != nil
+//@   ensures [C15.addcache.kept] i.labeledKeysByName != nil && i.deleters != nil
+
+//@ func (*InvalidationIndex).AddLabels
+//@   props C15 C16 C09
+//@   requires indexOK(i)
+//@   ensures [C15.addlabels.map] has(i.labeledKeysByName, cacheName) && i.labeledKeysByName[cacheName] != nil
+//@   loop 1 invariant [C15.addlabels.inv] labeledKeys != nil && has(i.labeledKeysByName, cacheName) && i.labeledKeysByName[cacheName] == labeledKeys
+
+// InvalidateByLabels: snapshot of the index under the mutex, then one invalidateByLabels per cache name; the total
+// is the number of successful Delete calls; the first deleter error stops the call and is returned.
+
+//@ func (*InvalidationIndex).InvalidateByLabels
+//@   props C15 C16
+//@   requires ctx != nil && indexOK(i)
+//@   ensures [C15.total] result0 == delok() - old(delok())
+//@   loop 1 invariant [C15.ibl.snap] labeledKeysByName != nil && deleters != nil
+//@       && (forall n string :: has(labeledKeysByName, n) ==> labeledKeysByName[n] != nil && has(deleters, n))
+//@       && (forall n string :: forall j int :: has(deleters, n) && 0 <= j && j < len(deleters[n]) ==> deleters[n][j] != nil)
+//@   loop 2 invariant [C15.ibl.cnt] cnt == delok() - old(delok()) && cnt >= 0 && labeledKeysByName != nil && deleters != nil
+//@       && (forall n string :: has(labeledKeysByName, n) ==> labeledKeysByName[n] != nil && has(deleters, n))
+//@       && (forall n string :: forall j int :: has(deleters, n) && 0 <= j && j < len(deleters[n]) ==> deleters[n][j] != nil)
+//@   replay indexrace
